@@ -102,6 +102,77 @@ def extract_to_id(prog, res, path, rule):
     return tab
 
 
+def tables_by_evaluation(prog, g):
+    """(to_sig table, to_id table, note) by abstract interpretation on concrete arguments, or None if outside the modelled subset.
+    to_sig is evaluated on all 256 ids.  to_id touches its argument only through equality tests (checked: the only operations on the
+    descriptor are derived `==` and field reads), so its result is determined by which table band / attribute the two fields equal:
+    one representative per class (every band and attribute of the table, plus one value outside each) covers all descriptors."""
+    import guardsem, bitsem
+    from bitsem import Adt
+    SIG = MM + g + "::SigId"
+    try:
+        ts = {}
+        for n in range(256):
+            r = guardsem.eval_fn(prog, MM + g + "::to_sig", [n])
+            if isinstance(r, Adt) and r.vname == "Some":
+                v = r.fields[0]
+                if isinstance(v, bitsem.Ref):
+                    return None
+                if not (isinstance(v, Adt) and len(v.fields) == 2 and all(isinstance(x, int) for x in v.fields)):
+                    return None
+                ts[n] = (v.fields[0], v.fields[1])
+            elif not (isinstance(r, Adt) and r.vname == "None"):
+                return None
+        bands = sorted({b for b, a in ts.values()})
+        attrs = sorted({a for b, a in ts.values()})
+        ob = next(x for x in range(256) if x not in bands)
+        oa = next(x for x in range(0x20, 0x400) if x not in attrs)
+        ti = {}
+        n_eval = 0
+        for b in bands + [ob]:
+            for a in attrs + [oa]:
+                r = guardsem.eval_fn(prog, MM + g + "::to_id", [Adt(SIG, 0, None, [b, a])])
+                n_eval += 1
+                if isinstance(r, Adt) and r.vname == "Some":
+                    v = r.fields[0]
+                    if not isinstance(v, int):
+                        return None
+                    if b == ob or a == oa:
+                        return None      # a descriptor outside the table's components is recognised: not a plain table lookup
+                    ti[(b, a)] = v
+                elif not (isinstance(r, Adt) and r.vname == "None"):
+                    return None
+        if not _only_equality_on_descriptor(prog, MM + g + "::to_id"):
+            return None
+        return ts, ti, "to_sig: 256 ids evaluated, %d entries; to_id: %d descriptor classes evaluated, %d entries" % (len(ts), n_eval, len(ti))
+    except (bitsem.Undecided, bitsem.Panic, StopIteration, RecursionError, KeyError, AttributeError, TypeError):
+        return None
+
+
+def _only_equality_on_descriptor(prog, path):
+    """to_id and the closures / derived eq it uses apply only ==, != and field reads to values (no ordering, arithmetic or hashing)"""
+    seen = set()
+    st = [path]
+    while st:
+        p = st.pop()
+        if p in seen or p not in prog.fns:
+            continue
+        seen.add(p)
+        f = prog.fns[p]
+        for blk in f.rec["blocks"]:
+            for s_ in blk["stmts"]:
+                if s_["k"] == "assign" and s_["rv"]["k"] == "binop" and s_["rv"]["op"] not in ("Eq", "Ne", "BitAnd", "BitOr"):
+                    return False
+                if s_["k"] == "assign" and s_["rv"]["k"] == "aggregate" and s_["rv"].get("agg") == "closure":
+                    st.append(s_["rv"]["path"])
+            t = blk["term"]
+            if t["k"] == "call":
+                c = t.get("resolved") or t["callee"]
+                if c in prog.fns:
+                    st.append(c)
+    return True
+
+
 def desc(ba):
     b, a = ba
     return "%d%s" % (b, chr(a)) if 0x20 <= a < 0x7f else "%d/U+%04X" % (b, a)
@@ -111,9 +182,26 @@ def rule_tables(prog, res, oracle_path):
     """Y-tab: the 7 MSM tables are bijections onto ids in 2..32 and agree with the standard's table."""
     oracle = json.load(open(oracle_path))
     out = {}
+    import engine
     for g in GNSS:
-        ts = extract_to_sig(prog, res, MM + g + "::to_sig", "Y-tab")
-        ti = extract_to_id(prog, res, MM + g + "::to_id", "Y-tab")
+        # first try: read the tables off the match arms; if the functions are not written as matches, evaluate them
+        probe = engine.Result("probe")
+        ts = extract_to_sig(prog, probe, MM + g + "::to_sig", "Y-tab")
+        ti = extract_to_id(prog, probe, MM + g + "::to_id", "Y-tab")
+        if probe.violations() and prog.fn(MM + g + "::to_sig") is not None and prog.fn(MM + g + "::to_id") is not None:
+            ev = tables_by_evaluation(prog, g)
+            if ev is not None:
+                ts, ti, note = ev
+                res.fn(prog.fn(MM + g + "::to_sig"))
+                res.fn(prog.fn(MM + g + "::to_id"))
+                res.ob("Y-tab", "%s | tables obtained by evaluating to_sig on every id 0..=255 and to_id on every class of descriptors its comparisons can distinguish" % g,
+                       True, note, prog.fn(MM + g + "::to_sig").loc)
+            else:
+                ts = extract_to_sig(prog, res, MM + g + "::to_sig", "Y-tab")
+                ti = extract_to_id(prog, res, MM + g + "::to_id", "Y-tab")
+        else:
+            ts = extract_to_sig(prog, res, MM + g + "::to_sig", "Y-tab")
+            ti = extract_to_id(prog, res, MM + g + "::to_id", "Y-tab")
         if ts is None or ti is None:
             continue
         out[g] = (ts, ti)
